@@ -410,6 +410,8 @@ def evaluate_history(lab, spec, roots, refs, sessions, counters, want):
                     add('C04', 'runs_on_inspect', f'{here}: inspection `{step.get("what", "snapshot")}` executed run of {[x["task"] for x in obs_runs]}')
                 if not o['ok']:
                     add('C04', 'inspect_failed', f'{here}: inspection raised {o.get("exc")}: {o.get("msg")}')
+                    if op == 'inspect' and step['what'] in ('run_info', 'log'):
+                        add('C18', 'records_unreadable', f'{here}: the {step["what"]} of the tasks cannot be obtained: {o.get("exc")}: {o.get("msg")}')
                 if op == 'snapshot' and o['ok'] and pending_absent is not None:
                     for n in pending_absent:
                         counters['failed_forced_recompute_checks'] += 1
@@ -674,7 +676,9 @@ def check_records(what, o, ch, ref, refs, latest, model, add, here, counters):
                 continue
             wref = refs[lr['ri']]
             wt = wref.tasks.get(lr['task']) or next((x for x in wref.tasks.values() if x['slug'] == lr['slug'] and x['key'] == lr['key']), None)
-            exp_log = [{'lab_uid': lr['uid'], 'n': 1}, 0, {}, {'lab_uid': lr['uid'], 'done': 1}, {'lab_uid': lr['uid'], 'done': 2, 'more': 5}, {'lab_uid': lr['uid'], 'n': 2}]
+            exp_log = [{'lab_uid': lr['uid'], 'n': 1}, 0, {},
+                       {'lab_uid': lr['uid'], 'mean': ['np', 'float64', 0.25], 'count': ['np', 'int64', 7], 'where': ['path', 'out/x'], 'shape': ['tuple', [2, 3]]},
+                       {'lab_uid': lr['uid'], 'done': 1}, {'lab_uid': lr['uid'], 'done': 2, 'more': 5}, {'lab_uid': lr['uid'], 'n': 2}]
             if info.get('log') != exp_log:
                 add('C18', 'run_info_log', f'{here}: run info of {n} holds records {info.get("log")}, the latest run of this location added {exp_log}')
             tk = info.get('task') or {}
